@@ -12,7 +12,7 @@ TRUSTED = [
     "Lean 4.33 kernel (thorough tier: leanchecker re-check of the property module)",
     "axioms propext, Classical.choice, Quot.sound only (audited per theorem with #print axioms); no sorry/native_decide",
     "Mathlib v4.33 as a library of proved lemmas",
-    "hand-written Lean model SF/Model/*.lean, tied to /repo by the correspondence run of this check (differential, sampled) and, for 26 views, by the translator tie (below)",
+    "hand-written Lean model SF/Model/*.lean, tied to /repo by the correspondence run of this check (differential, sampled) and, for 27 views, by the translator tie (below)",
     "translator tools/rs2lean.py (its reading of the Rust subset the crate uses: &mut self as state passing, VecDeque/Vec as lists, usize as Nat with checked subtraction, unwrap/index/debug_assert as failing operations, the std functions of SF/GenPrelude.lean); the equality of its output with the model is NOT trusted: SF.GenEq.<View>.tie is kernel-checked on every run",
     "Rust harness (Dyn adapter, exact scalar Q with f64-bridged transcendental functions, panic capture, allocation meter)",
     "Lean compiler/runtime and libm for the executable Float/Rat instantiations of the model",
